@@ -98,6 +98,32 @@ func c12AES(c *vf.Ctx) {
 			if got, err := dhash.DecryptAES(nonce, ct, wrong); err == nil {
 				c.Fail(sub, i, "wrong-passphrase-accepted", fmt.Sprintf("returned %d bytes", len(got)), wit())
 			}
+			// the caller's passphrase buffer is its own: overwritten in place with another passphrase of the same
+			// length and used again, it stands for that other passphrase
+			if len(pass) > 0 {
+				buf := append([]byte(nil), pass...)
+				if _, _, err := dhash.EncryptAES(payload, buf); err == nil {
+					other := append([]byte(nil), pass...)
+					other[r.Intn(len(other))] ^= 1 << uint(r.Intn(8))
+					copy(buf, other)
+					nb, cb, errB := dhash.EncryptAES(payload, buf)
+					nf, cf, errF := dhash.EncryptAES(payload, append([]byte(nil), other...))
+					if (errB == nil) != (errF == nil) || !bytes.Equal(nb, nf) || !bytes.Equal(cb, cf) {
+						c.Fail(sub, i, "encrypt-depends-on-an-earlier-call", "the same payload and passphrase bytes encrypt differently from a buffer that held another passphrase in an earlier call", wit())
+					} else if errB == nil {
+						if got, err := dhash.DecryptAES(nb, cb, append([]byte(nil), pass...)); err == nil {
+							c.Fail(sub, i, "wrong-passphrase-accepted:after-buffer-reuse", fmt.Sprintf("returned %d bytes", len(got)), wit())
+						}
+						copy(buf, pass)
+						_, _ = dhash.DecryptAES(nonce, ct, buf)
+						copy(buf, other)
+						if got, err := dhash.DecryptAES(nonce, ct, buf); err == nil {
+							c.Fail(sub, i, "wrong-passphrase-accepted:after-buffer-reuse", fmt.Sprintf("returned %d bytes", len(got)), wit())
+						}
+					}
+					c.Inc("passphrase_buffers_reused_for_another_passphrase")
+				}
+			}
 			// ciphertext must not contain the plaintext (for payloads long enough to be meaningful)
 			if pl >= 16 && bytes.Contains(ct, payload) {
 				c.Fail(sub, i, "plaintext-in-ciphertext", "", wit())
